@@ -94,8 +94,11 @@ func main() {
 				fmt.Sscan(fkey[i+1:], &closure)
 				fkey = fkey[:i]
 			}
-			fi := w.LookupFunc(fkey)
+			var fi *FuncInfo
 			events := false
+			if !strings.HasPrefix(fkey, "emitted.") {
+				fi = w.LookupFunc(fkey)
+			}
 			if fi == nil && strings.HasPrefix(fkey, "emitted.") {
 				if err := w.LoadEmitted(); err != nil {
 					fmt.Println("emitted:", err)
